@@ -108,10 +108,11 @@ CondQStep ==
     /\ Judge(<< <<"ConditionalDistribution", \A i \in 1..Len(E.rows) : CondRowOK(E.rows[i])>>,
                 <<"InverseConditionalDistribution", \A i \in 1..Len(E.rows) : CondRowInv(E.rows[i])>> >>)
     /\ ln' = ln + 1 /\ UNCHANGED <<tid, fin, cvars>>
-\* the stated mixed derivative: row = <<stated, sgn(prod u) * difference quotient, difference quotient * prod u>> (1e-6 of the
-\* larger; accepted within 2e-3: the difference quotient is the reference).  The property (and the docstring) say "mixed partial derivative times the product of the arguments"; the code
-\* returns the derivative with the sign of the product (known finding C11-mixed-derivative-convention).  Anything else is
-\* reported under the trace's own signature.
+\* the stated mixed derivative: row = <<stated, difference quotient, difference quotient * prod u>> (1e-6 of the larger;
+\* accepted within 2e-3: the difference quotient is the reference).  The property (and the docstring) say "mixed partial
+\* derivative times the product of the arguments"; the code returns the mixed partial derivative itself, which is what its
+\* only caller integrates (known finding C11-mixed-derivative-convention).  Anything else - in particular a wrong sign in
+\* the mixed orthants, repaired in rpylib - is reported under the trace's own signature.
 AbsI2(x) == IF x < 0 THEN -x ELSE x
 Literal(rows) == \A i \in 1..Len(rows) : AbsI2(rows[i][1] - rows[i][3]) <= 2000
 AsBuilt(rows) == \A i \in 1..Len(rows) : AbsI2(rows[i][1] - rows[i][2]) <= 2000
@@ -119,7 +120,7 @@ DerivStep ==
     /\ More /\ E.e = "Deriv"
     /\ IF Literal(E.rows) THEN bad' = bad
        ELSE /\ PrintT(<<"VIOL", Id, ln, "MixedDerivativeTimesArguments",
-                         IF AsBuilt(E.rows) THEN "convention:signed-derivative" ELSE H.kind>>)
+                         IF AsBuilt(E.rows) THEN "convention:derivative-itself" ELSE H.kind>>)
             /\ bad' = bad + 1
     /\ ln' = ln + 1 /\ UNCHANGED <<tid, fin, cvars>>
 RaiseStep ==
